@@ -119,7 +119,7 @@ func VerifC04Listen() {
 	// one realtime byte inserted at any position (also inside a message or a sysex)
 	if zz.Param("rtinsert") == 1 && zz.Choice("insert-rt", 2) == 1 {
 		pos := zz.Choice("rtpos", len(wire)+1)
-		rt := []byte{0xF8, 0xFA, 0xFE}[zz.Choice("rtbyte", 3)]
+		rt := []byte{0xF8, 0xFF, 0xFE, 0xFA, 0xFB, 0xFC, 0xF9}[zz.Choice("rtbyte", zz.Param("rtbytes"))]
 		nw := append(append(append([]byte{}, wire[:pos]...), rt), wire[pos:]...)
 		var ne []c04expect
 		placed := false
